@@ -53,6 +53,30 @@ fn make_content(ctx: &Ctx, rng: &mut Rng) -> Vec<u8> {
     }
 }
 
+/// replace some identifiers and numbers by others of different length, keeping everything else
+fn vary_tokens(text: &str, rng: &mut Rng) -> String {
+    use crate::refscan::{self, RK};
+    let toks = refscan::scan(text);
+    let mut out = String::with_capacity(text.len() + 64);
+    let mut pos = 0;
+    for t in &toks {
+        out.push_str(&text[pos..t.start]);
+        let s = t.text(text);
+        let replace = match t.kind {
+            RK::Word if !refscan::is_keyword_capable(s) && !t.in_asm && rng.chance(1, 6) => Some(format!("{s}{}", rng.pick_str(&["X", "Longer", "_1", "WithAVeryLongSuffix"]))),
+            RK::Number if s.bytes().all(|b| b.is_ascii_digit()) && rng.chance(1, 4) => Some(format!("{s}{}", rng.below(1000))),
+            _ => None,
+        };
+        match replace {
+            Some(r) => out.push_str(&r),
+            None => out.push_str(s),
+        }
+        pos = t.end;
+    }
+    out.push_str(&text[pos..]);
+    out
+}
+
 fn write_tree(root: &Path, members: &[Member]) {
     for m in members {
         let p = root.join(&m.rel);
@@ -149,6 +173,18 @@ impl Prop for C18 {
                 None => {
                     if !distinct.is_empty() && rng.chance(1, 5) {
                         rng.pick(&distinct).clone()
+                    } else if !distinct.is_empty() && rng.chance(1, 3) {
+                        // near-duplicate: same structure and token positions, a few identifiers / numbers
+                        // of other lengths (what a per-thread cache keyed by position would confuse)
+                        let base = rng.pick(&distinct).clone();
+                        match String::from_utf8(base.clone()) {
+                            Ok(text) => {
+                                let c = vary_tokens(&text, &mut rng).into_bytes();
+                                distinct.push(c.clone());
+                                c
+                            }
+                            Err(_) => base,
+                        }
                     } else {
                         let c = make_content(ctx, &mut rng);
                         distinct.push(c.clone());
